@@ -31,6 +31,7 @@ type params struct {
 	Incoming bool // incoming traffic on the channels meanwhile
 	Closing  bool // channel 2's transport dies concurrently
 	Many     bool // longer per-writer histories (FIFO)
+	Decoded  bool // forwarded frames carry decoded messages (encoded by Node.encodeFrame in the caller)
 }
 
 func (p params) name() string {
@@ -49,6 +50,9 @@ func (p params) name() string {
 	}
 	if p.Many {
 		s += "/many"
+	}
+	if p.Decoded {
+		s += "/decoded"
 	}
 	return s
 }
@@ -72,7 +76,19 @@ type exec struct {
 // items are identified by PING seq (originated) or forwarded frame seq field
 func ping(i int) *common.MessagePing { return &common.MessagePing{Seq: uint32(i), TimeUsec: 3} }
 
+var decodedFrames bool
+
 func fwd(i int, v2 bool) frame.Frame {
+	if decodedFrames {
+		// the frame carries a decoded message and the checksum of its canonical encoding
+		m := &common.MessagePing{Seq: uint32(i), TimeUsec: 3}
+		rf := ref.Frame{V2: v2, Seq: byte(100 + i), Sys: 77, Comp: 66, ID: 4, Payload: ref.MustEncodePing(uint32(i), v2)}
+		ck := rf.ComputeChecksum(237)
+		if v2 {
+			return &frame.V2Frame{SequenceNumber: byte(100 + i), SystemID: 77, ComponentID: 66, Message: m, Checksum: ck}
+		}
+		return &frame.V1Frame{SequenceNumber: byte(100 + i), SystemID: 77, ComponentID: 66, Message: m, Checksum: ck}
+	}
 	raw := &message.MessageRaw{ID: 4, Payload: ref.MustEncodePing(uint32(i), v2)}
 	if v2 {
 		f := &frame.V2Frame{SequenceNumber: byte(100 + i), SystemID: 77, ComponentID: 66, Message: raw}
@@ -88,6 +104,7 @@ func (e *exec) Body() {
 	sx.ResetGlobals()
 	vrand.Next = 0x5C
 	p := e.p
+	decodedFrames = p.Decoded
 	n := &gomavlib.Node{Dialect: sx.Dialect(), OutVersion: gomavlib.V2, OutSystemID: 10, OutComponentID: 20, HeartbeatDisable: true}
 	if p.V1 {
 		n.OutVersion = gomavlib.V1
@@ -215,6 +232,9 @@ func (e *exec) check() {
 			}
 			forwarded := f.Sys == 77
 			if forwarded {
+				if want := f.ComputeChecksum(237); want != f.Checksum {
+					e.problems = append(e.problems, fmt.Sprintf("transport %d: forwarded frame %d carries checksum %04x, its payload needs %04x", i, num, f.Checksum, want))
+				}
 				// forwarded frames keep their own header fields
 				if f.Comp != 66 || f.Seq != byte(100+num) || f.Compat != 0 || f.Signed() {
 					e.problems = append(e.problems, fmt.Sprintf("transport %d: forwarded frame %d changed its header: %v", i, num, f))
@@ -297,7 +317,8 @@ func (e *exec) Outcome(r *vmc.Result) string {
 }
 
 func variants(thorough bool) []sx.Variant {
-	ps := []params{{}, {Signed: true}, {V1: true}, {Incoming: true}, {Closing: true}, {Many: true}, {Signed: true, Incoming: true, Many: true}}
+	ps := []params{{}, {Signed: true}, {V1: true}, {Incoming: true}, {Closing: true}, {Many: true}, {Signed: true, Incoming: true, Many: true},
+		{Decoded: true}, {Decoded: true, V1: true}}
 	var out []sx.Variant
 	for _, p := range ps {
 		p := p
